@@ -90,6 +90,8 @@ class Folder:
                     if v.format_spec is not None or v.conversion not in (-1, 115):
                         raise Unfoldable("format spec in f-string")
                     x = self.fold(v.value, module, env, self_cls)
+                    if isinstance(x, int) and not isinstance(x, bool):
+                        x = str(x)            # f"{2}" is "2": an integer literal formats as its decimal digits
                     if not isinstance(x, str):
                         raise Unfoldable("non-str interpolation")
                     parts.append(x)
